@@ -2,7 +2,7 @@
    Nothing but statements, `exact`, Print Assumptions. *)
 From Coq Require Import List NArith Bool.
 From FwdLib Require Import Bytes.
-From G03 Require Import Tables ReplyReader ObligationsReply.
+From G03 Require Import Tables ReplyReader Socks ObligationsReply.
 Import ListNotations.
 Open Scope N_scope.
 
@@ -23,3 +23,18 @@ Print Assumptions T03_no_overread.
 Example T03_no_overread_example :
   head_overread true 128 (b "HTTP/1.1 200 OK" ++ [13;10;13;10] ++ b "banner") [64%nat] = Some [].
 Proof. exact ob_head_example. Qed.
+
+(* Behind a SOCKS5 upstream proxy: what the client code consumes of the server's stream is exactly the
+   replies, whatever follows them in the same segment — for every reply the client accepts (IPv4, IPv6
+   or name as bound address) and every continuation of the stream; and it never loses a byte. *)
+Theorem T03_no_overread_socks5 : forall rep, socks_connect rep = Some (rep, []) ->
+  forall t, socks_connect (rep ++ t) = Some (rep, t).
+Proof. exact socks_no_overread. Qed.
+Print Assumptions T03_no_overread_socks5.
+
+Theorem T03_socks5_stream_intact : forall s c r, socks_connect s = Some (c, r) -> s = c ++ r.
+Proof. exact socks_connect_stream. Qed.
+Print Assumptions T03_socks5_stream_intact.
+
+Example T03_no_overread_socks5_example : socks_example_ok = true.
+Proof. exact ob_socks_example. Qed.
